@@ -27,6 +27,7 @@ theorem fetch_chains {n : Node} {c : Chain} {a b d e : Nat} {cm : Commit} {n' : 
       rw [← h.1]
       unfold buildCommit at hb
       simp only at hb
+      generalize commitOuts n.cfg c _ _ _ _ = outs at hb
       split at hb
       · cases hb
       · split at hb
@@ -41,12 +42,12 @@ theorem sign_chains (n : Node) :
      ((n.sign).1 ≠ .ok ∧ (n.sign).2.1 = n)) := by
   unfold Node.sign
   split
-  · exact ⟨rfl, Or.inr ⟨by decide, rfl⟩⟩
+  · exact ⟨rfl, Or.inr ⟨(by intro h; cases h), rfl⟩⟩
   · rename_i hu
     have hp : n.chainR.pend = [] := by
-      simp only [CChain.hasUnacked, Bool.not_eq_true, Bool.not_eq_eq_eq_not, Bool.not_false,
-        List.isEmpty_iff] at hu
-      exact hu
+      cases hp : n.chainR.pend with
+      | nil => rfl
+      | cons a b => simp [CChain.hasUnacked, hp] at hu
     simp only
     split
     · split
@@ -141,20 +142,27 @@ def Consec : Nat → List Commit → Prop
   | _, [] => True
   | h, c :: r => c.height = h + 1 ∧ Consec (h + 1) r
 
+/-- height of the last commitment of `l`, `h` if there is none. -/
+def lastHeight : Nat → List Commit → Nat
+  | h, [] => h
+  | _, c :: r => lastHeight c.height r
+
 theorem consec_snoc {h : Nat} {l : List Commit} {cm : Commit} (hc : Consec h l)
-    (hh : cm.height = ((l.getLast?.map Commit.height).getD h) + 1) : Consec h (l ++ [cm]) := by
+    (hh : cm.height = lastHeight h l + 1) : Consec h (l ++ [cm]) := by
   induction l generalizing h with
-  | nil => simpa [Consec] using hh
+  | nil => simpa [Consec, lastHeight] using hh
   | cons c r ih =>
     obtain ⟨h1, h2⟩ := hc
     refine ⟨h1, ih h2 ?_⟩
-    cases r with
-    | nil => simpa [h1] using hh
-    | cons c' r' => simpa [List.getLast?_cons_cons] using hh
+    rw [← h1]; simpa [lastHeight] using hh
 
-theorem tip_height (ch : CChain) : ch.tip.height = ((ch.pend.getLast?.map Commit.height).getD ch.tail.height) := by
-  unfold CChain.tip
-  cases ch.pend.getLast? <;> rfl
+theorem getLast_height (l : List Commit) (d : Commit) : (l.getLast?.getD d).height = lastHeight d.height l := by
+  induction l generalizing d with
+  | nil => rfl
+  | cons c r ih => rw [List.getLast?_cons]; simpa [lastHeight] using ih c
+
+theorem tip_height (ch : CChain) : ch.tip.height = lastHeight ch.tail.height ch.pend :=
+  getLast_height ch.pend ch.tail
 
 /-! ### the release-rule invariant -/
 
@@ -181,26 +189,37 @@ theorem relInv_mem {s : St} (h : RelInv s) (hs : s.staged = none) {n' : Node}
       n'.chainL = { tail := s.mem.chainL.tail, pend := s.mem.chainL.pend ++ [cm] })
     (d : Disk) (hd : d.lc = s.disk.lc) : RelInv { s with mem := n', disk := d } := by
   rcases hl with hl | ⟨cm, hcm, hl⟩
-  · exact ⟨by simpa [hl] using h.cur, by simpa [hd] using h.disk, by simpa [hl] using h.consec,
-      h.below, h.staged, h.trace⟩
-  · refine ⟨by simpa [hl] using h.cur, by simpa [hd] using h.disk, ?_, h.below, h.staged, h.trace⟩
-    simp only [hl]
-    exact consec_snoc h.consec (by rw [hcm, tip_height])
+  · refine ⟨?_, ?_, ?_, h.below, h.staged, h.trace⟩
+    · show s.cur = n'.chainL.tail.height
+      rw [hl]; exact h.cur
+    · show d.lc.cm.height = s.cur
+      rw [hd]; exact h.disk
+    · show Consec n'.chainL.tail.height n'.chainL.pend
+      rw [hl]; exact h.consec
+  · refine ⟨?_, ?_, ?_, h.below, h.staged, h.trace⟩
+    · show s.cur = n'.chainL.tail.height
+      rw [hl]; exact h.cur
+    · show d.lc.cm.height = s.cur
+      rw [hd]; exact h.disk
+    · show Consec n'.chainL.tail.height n'.chainL.pend
+      rw [hl]
+      exact consec_snoc h.consec (by rw [hcm, tip_height])
 
 theorem relInv_apiStep {s : St} (h : RelInv s) (o : Op) : RelInv (s.apiStep o).2 := by
   unfold St.apiStep
   split
   · exact h
   · rename_i hs
-    split
-    · -- sign
+    cases o
+    case sign =>
       simp only
       unfold St.sign
       simp only
       split
       · exact relInv_mem h hs (Or.inl (sign_chains s.mem).1) _ rfl
       · exact h
-    · -- revokeWrite
+    case revoke =>
+      simp only
       unfold St.revokeWrite
       split
       · exact h
@@ -211,31 +230,38 @@ theorem relInv_apiStep {s : St} (h : RelInv s) (o : Op) : RelInv (s.apiStep o).2
         rw [hp] at hc
         obtain ⟨hc1, hc2⟩ := hc
         refine ⟨?_, ?_, ?_, ?_, ?_, ?_⟩
-        · simp only [hrev]; rw [hc1, h.cur]
-        · simp only [toDisk, hrev]; rw [hc1, h.cur]
-        · simp only [hrev]; rw [hc1]; exact hc2
-        · intro m hm; have := h.below m hm; simp only; omega
+        · show s.cur + 1 = s.mem.revoke.2.chainL.tail.height
+          rw [hrev]; show s.cur + 1 = c.height; rw [hc1, h.cur]
+        · show (toDisk s.mem.revoke.2 s.mem.revoke.2.chainL.tail).cm.height = s.cur + 1
+          rw [hrev]; show c.height = s.cur + 1; rw [hc1, h.cur]
+        · show Consec s.mem.revoke.2.chainL.tail.height s.mem.revoke.2.chainL.pend
+          rw [hrev]; show Consec c.height rest; rw [hc1]; exact hc2
         · intro m hm
-          simp only [Option.some.injEq] at hm
-          subst hm
-          simp
-        · simpa [hs] using h.trace
-    · -- receiveRevocation
+          have := h.below m hm
+          show m.secret < s.cur + 1
+          omega
+        · intro m hm
+          have hm' : (⟨s.cur, s.cur + 2, .revoke⟩ : RevMsg) = m := by
+            simpa using hm
+          subst hm'
+          exact ⟨by simp, by show 1 ≤ s.cur + 1; omega⟩
+        · have ht := h.trace
+          rw [hs] at ht
+          show ChainTrace s.trace (s.cur + 1 - 1)
+          simpa using ht
+    case receiveRevocation =>
+      simp only
       unfold St.receiveRevocation
       split
       · exact h
       · refine relInv_mem h hs (Or.inl (receiveRevocation_chains s.mem).1) _ ?_
         split <;> rfl
-    · -- memory-only operations
-      rename_i o' h1 h2 h3
+    case receiveCommit sv =>
+      simp only [Node.step]
+      exact relInv_mem h hs (receiveCommit_chains s.mem sv).2 _ rfl
+    all_goals
       simp only
-      by_cases hrc : ∃ sv, o' = .receiveCommit sv
-      · obtain ⟨sv, rfl⟩ := hrc
-        simp only [Node.step]
-        exact relInv_mem h hs (receiveCommit_chains s.mem sv).2 _ rfl
-      · have := memStep_chains s.mem o' (fun e => h1 (by rw [e])) (fun e => h2 (by rw [e]))
-          (fun e => h3 (by rw [e])) (fun sv e => hrc ⟨sv, e⟩)
-        exact relInv_mem h hs (Or.inl this.1) _ rfl
+      refine relInv_mem h hs (Or.inl (memStep_chains s.mem _ ?_ ?_ ?_ ?_).1) _ rfl <;> intros <;> simp
 
 theorem relInv_emit {s : St} (h : RelInv s) : RelInv s.emit := by
   unfold St.emit
@@ -351,15 +377,23 @@ structure DiskInv (s : St) : Prop where
   one : s.mem.chainR.pend.length ≤ 1
 
 theorem diskInv_mem {s : St} (h : DiskInv s) {n' : Node} (hl : n'.chainL.tail = s.mem.chainL.tail)
-    (hr : n'.chainR = s.mem.chainR) : DiskInv { s with mem := n' } :=
-  ⟨by simpa [hl] using h.lc, by simpa [hr] using h.rc, by simpa [hr] using h.pend, by simpa [hr] using h.one⟩
+    (hr : n'.chainR = s.mem.chainR) : DiskInv { s with mem := n' } := by
+  refine ⟨?_, ?_, ?_, ?_⟩
+  · show s.disk.lc.cm = n'.chainL.tail
+    rw [hl]; exact h.lc
+  · show s.disk.rc.cm = n'.chainR.tail
+    rw [hr]; exact h.rc
+  · show (s.disk.pend.map (fun p => p.1.cm)).toList = n'.chainR.pend
+    rw [hr]; exact h.pend
+  · show n'.chainR.pend.length ≤ 1
+    rw [hr]; exact h.one
 
 theorem diskInv_apiStep {s : St} (h : DiskInv s) (o : Op) : DiskInv (s.apiStep o).2 := by
   unfold St.apiStep
   split
   · exact h
-  · split
-    · -- sign
+  · cases o
+    case sign =>
       simp only
       unfold St.sign
       simp only
@@ -367,22 +401,34 @@ theorem diskInv_apiStep {s : St} (h : DiskInv s) (o : Op) : DiskInv (s.apiStep o
       · rename_i hok
         obtain ⟨hL, hR⟩ := sign_chains s.mem
         rcases hR with ⟨_, hp, cm, _, hR⟩ | ⟨hne, _⟩
-        · refine ⟨by simpa [hL] using h.lc, by simpa [hR] using h.rc, ?_, by simp [hR]⟩
-          simp [hR, toDisk, CChain.tip]
+        · refine ⟨?_, ?_, ?_, ?_⟩
+          · show s.disk.lc.cm = s.mem.sign.2.1.chainL.tail
+            rw [hL]; exact h.lc
+          · show s.disk.rc.cm = s.mem.sign.2.1.chainR.tail
+            rw [hR]; exact h.rc
+          · show [(toDisk s.mem.sign.2.1 s.mem.sign.2.1.chainR.tip).cm] = s.mem.sign.2.1.chainR.pend
+            rw [hR]; rfl
+          · show s.mem.sign.2.1.chainR.pend.length ≤ 1
+            rw [hR]; simp
         · exact absurd hok hne
       · exact h
-    · -- revokeWrite
+    case revoke =>
+      simp only
       unfold St.revokeWrite
       split
       · exact h
       · rename_i c rest hp
-        have hrevL : s.mem.revoke.2.chainL = { tail := c, pend := rest } := by
-          unfold Node.revoke; rw [hp]
         have hrevR : s.mem.revoke.2.chainR = s.mem.chainR := by
           unfold Node.revoke; rw [hp]
-        exact ⟨by simp [toDisk], by simpa [hrevR] using h.rc, by simpa [hrevR] using h.pend,
-          by simpa [hrevR] using h.one⟩
-    · -- receiveRevocation
+        refine ⟨rfl, ?_, ?_, ?_⟩
+        · show s.disk.rc.cm = s.mem.revoke.2.chainR.tail
+          rw [hrevR]; exact h.rc
+        · show (s.disk.pend.map (fun p => p.1.cm)).toList = s.mem.revoke.2.chainR.pend
+          rw [hrevR]; exact h.pend
+        · show s.mem.revoke.2.chainR.pend.length ≤ 1
+          rw [hrevR]; exact h.one
+    case receiveRevocation =>
+      simp only
       unfold St.receiveRevocation
       split
       · exact h
@@ -403,21 +449,23 @@ theorem diskInv_apiStep {s : St} (h : DiskInv s) (o : Op) : DiskInv (s.apiStep o
         | some p =>
           simp only [hd, Option.map_some, Option.toList_some, List.cons.injEq, and_true] at hpd
           refine ⟨?_, ?_, ?_, ?_⟩
-          · split <;> simpa [hL] using h.lc
-          · split <;> simp [hR, hpd]
-          · split <;> simp [hR, hrest]
-          · simp [hR, hrest]
-    · rename_i o' h1 h2 h3
+          · show s.disk.lc.cm = s.mem.receiveRevocation.2.chainL.tail
+            rw [hL]; exact h.lc
+          · show (match some p with | some p => p.1 | none => s.disk.rc).cm = s.mem.receiveRevocation.2.chainR.tail
+            rw [hR]; exact hpd
+          · show ([] : List Commit) = s.mem.receiveRevocation.2.chainR.pend
+            rw [hR, hrest]
+          · show s.mem.receiveRevocation.2.chainR.pend.length ≤ 1
+            rw [hR, hrest]; simp
+    case receiveCommit sv =>
+      simp only [Node.step]
+      obtain ⟨hR, hL⟩ := receiveCommit_chains s.mem sv
+      refine diskInv_mem h ?_ hR
+      rcases hL with hL | ⟨cm, _, hL⟩ <;> rw [hL]
+    all_goals
       simp only
-      by_cases hrc : ∃ sv, o' = .receiveCommit sv
-      · obtain ⟨sv, rfl⟩ := hrc
-        simp only [Node.step]
-        obtain ⟨hR, hL⟩ := receiveCommit_chains s.mem sv
-        refine diskInv_mem h ?_ hR
-        rcases hL with hL | ⟨cm, _, hL⟩ <;> simp [hL]
-      · have := memStep_chains s.mem o' (fun e => h1 (by rw [e])) (fun e => h2 (by rw [e]))
-          (fun e => h3 (by rw [e])) (fun sv e => hrc ⟨sv, e⟩)
-        exact diskInv_mem h (by rw [this.1]) this.2
+      refine diskInv_mem h (congrArg CChain.tail (memStep_chains s.mem _ ?_ ?_ ?_ ?_).1)
+        (memStep_chains s.mem _ ?_ ?_ ?_ ?_).2 <;> intros <;> simp
 
 theorem restore_chains {cfg : Cfg} {d : Disk} {n : Node} (h : restore cfg d = .ok n) :
     n.chainL = (restoreChains d).1 ∧ n.chainR = (restoreChains d).2 ∧ n.cfg = cfg := by
@@ -467,5 +515,122 @@ theorem diskInv_run {s : St} (h : DiskInv s) (evs : List Ev) : DiskInv (s.run ev
 
 theorem diskInv_init (n : Node) (hp : n.chainR.pend = []) : DiskInv (St.init n) :=
   ⟨rfl, rfl, by simp [St.init, hp], by simp [St.init, hp]⟩
+
+
+/-! ### consequences of `ChainTrace` -/
+
+theorem chainTrace_points {t : List RevMsg} {k : Nat} (h : ChainTrace t k) :
+    ∀ m ∈ t, m.nextPoint = m.secret + 2 := by
+  induction h with
+  | nil => simp
+  | produced src hs _ ih =>
+    intro m hm
+    simp only [List.mem_append, List.mem_singleton] at hm
+    rcases hm with hm | rfl
+    · exact ih m hm
+    · rfl
+  | sync _ ih =>
+    intro m hm
+    simp only [List.mem_append, List.mem_singleton] at hm
+    rcases hm with hm | rfl
+    · exact ih m hm
+    · rfl
+
+def produced (t : List RevMsg) : List RevMsg := t.filter (fun m => m.src != .sync)
+
+theorem chainTrace_produced {t : List RevMsg} {k : Nat} (h : ChainTrace t k) :
+    (produced t).map RevMsg.secret = List.range k := by
+  induction h with
+  | nil => rfl
+  | @produced t k src hs _ ih =>
+    have : (src != RevSrc.sync) = true := by simpa using hs
+    simp [produced, List.filter_append, this, List.range_succ] at ih ⊢
+    exact ih
+  | sync _ ih =>
+    simpa [produced, List.filter_append] using ih
+
+theorem chainTrace_sync {t : List RevMsg} {k : Nat} (h : ChainTrace t k) :
+    ∀ a m b, t = a ++ m :: b → m.src = .sync → m.secret + 1 = (produced a).length := by
+  induction h with
+  | nil => intro a m b h; simp at h
+  | @produced t k src hs ht ih =>
+    intro a m b hab hm
+    rcases List.eq_nil_or_concat b with rfl | ⟨b', y, rfl⟩
+    · have := List.append_inj' hab (by simp)
+      simp only [List.cons.injEq, and_true] at this
+      obtain ⟨_, rfl⟩ := this
+      exact absurd hm hs
+    · have e : a ++ m :: (b' ++ [y]) = (a ++ m :: b') ++ [y] := by simp
+      rw [e] at hab
+      exact ih a m b' (List.append_inj' hab (by simp)).1 hm
+  | @sync t k ht ih =>
+    intro a m b hab hm
+    rcases List.eq_nil_or_concat b with rfl | ⟨b', y, rfl⟩
+    · have := List.append_inj' hab (by simp)
+      simp only [List.cons.injEq, and_true] at this
+      obtain ⟨rfl, rfl⟩ := this
+      have := congrArg List.length (chainTrace_produced ht)
+      simp only [List.length_map, List.length_range] at this
+      rw [this]
+    · have e : a ++ m :: (b' ++ [y]) = (a ++ m :: b') ++ [y] := by simp
+      rw [e] at hab
+      exact ih a m b' (List.append_inj' hab (by simp)).1 hm
+
+
+/-! ### C01's invariant is decidable -/
+
+theorem forall_chain (P : Chain → Prop) : (∀ c, P c) ↔ P .loc ∧ P .rem :=
+  ⟨fun h => ⟨h _, h _⟩, fun h c => by cases c; exact h.1; exact h.2⟩
+
+instance (es : List Entry) : Decidable (UniqueAdds es) := by unfold UniqueAdds; infer_instance
+instance (cfg : Cfg) (cm : Commit) : Decidable (Conserved cfg cm) := by unfold Conserved; infer_instance
+instance (n : Node) (c : Chain) : Decidable (J1 n c) := by unfold J1; infer_instance
+
+theorem logOK_iff (own other : Log) : LogOK own other ↔
+    ((∀ e ∈ own.entries, e.logIndex < own.logIndex) ∧ UniqueAdds own.entries ∧
+     (∀ e ∈ own.entries, e.isAdd = true → e.htlcIndex < own.htlcCounter) ∧
+     ((resolutions own.entries).map Entry.parent).Nodup ∧
+     (∀ r ∈ own.entries, r.isRes = true → r.parent ∈ other.modified) ∧
+     (∀ r ∈ own.entries, r.isRes = true → ∃ a ∈ other.entries, a.isAdd = true ∧
+        a.htlcIndex = r.parent ∧ a.amt = r.amt ∧
+        ((r.rmvH .loc ≠ 0 → a.addH .loc ≠ 0) ∧ (r.rmvH .rem ≠ 0 → a.addH .rem ≠ 0)))) := by
+  constructor
+  · intro h
+    refine ⟨h.idxBound, h.uniq, h.addLt, h.resPar, h.resMod, ?_⟩
+    intro r hr hres
+    obtain ⟨a, ha, h1, h2, h3, h4⟩ := h.resAdd r hr hres
+    exact ⟨a, ha, h1, h2, h3, h4 .loc, h4 .rem⟩
+  · rintro ⟨h1, h2, h3, h4, h5, h6⟩
+    refine ⟨h1, h2, h3, h4, h5, ?_⟩
+    intro r hr hres
+    obtain ⟨a, ha, g1, g2, g3, g4, g5⟩ := h6 r hr hres
+    exact ⟨a, ha, g1, g2, g3, fun c => by cases c; exact g4; exact g5⟩
+
+instance (own other : Log) : Decidable (LogOK own other) := decidable_of_iff _ (logOK_iff own other).symm
+
+theorem inv_iff (n : Node) : Inv n ↔
+    (LogOK n.logL n.logR ∧ LogOK n.logR n.logL ∧
+     (∀ e ∈ n.logL.entries, e.onChain .loc = true → e.logIndex < n.chainR.tail.ourMsg) ∧
+     (∀ e ∈ n.logR.entries, e.onChain .rem = true → e.logIndex < n.chainL.tail.theirMsg) ∧
+     (n.chainL.all.map Commit.theirMsg).Pairwise (· ≤ ·) ∧
+     (∀ cm ∈ n.chainL.all, cm.theirMsg ≤ n.logR.logIndex) ∧
+     (n.chainR.all.map Commit.ourMsg).Pairwise (· ≤ ·) ∧
+     (∀ cm ∈ n.chainR.all, cm.ourMsg ≤ n.logL.logIndex) ∧
+     (J1 n .loc ∧ J1 n .rem) ∧
+     ((∀ cm ∈ (n.chain .loc).all, Conserved n.cfg cm ∧ outsTotal cm.outs + cm.fee ≤ n.cfg.capacity) ∧
+      (∀ cm ∈ (n.chain .rem).all, Conserved n.cfg cm ∧ outsTotal cm.outs + cm.fee ≤ n.cfg.capacity))) := by
+  constructor
+  · intro h
+    exact ⟨h.logL, h.logR, h.covL, h.covR, h.monoL, h.boundL, h.monoR, h.boundR,
+      ⟨h.j1 _, h.j1 _⟩, ⟨h.cons _, h.cons _⟩⟩
+  · rintro ⟨a, b, c, d, e, f, g, i, j, k⟩
+    exact ⟨a, b, c, d, e, f, g, i, (forall_chain _).2 j, (forall_chain _).2 k⟩
+
+instance (n : Node) : Decidable (Inv n) := decidable_of_iff _ (inv_iff n).symm
+
+/-- the executable form of C01's node invariant, evaluated by the driver on the implementation's
+    restored state after every probe and every real restart. -/
+def invCheck (n : Node) : Bool := decide (Inv n)
+
 
 end LndModel.C02
